@@ -118,6 +118,18 @@ def dep_backends(run):
     run.config = keep
 
 
+def dep_alloc(run, polars=True):
+    """the allocation / collection primitives of the owned backends (Vec, VecDeque, ndarray: config
+    nd; polars: config full): `uninit(len)` has exactly len slots, `uninit_ref_mut` / `assume_init`
+    are the same buffer, the collectors take the whole iterator"""
+    import pinned
+    keep = run.config
+    pinned.check(run, run.facts('nd'), 'backend_alloc')
+    if polars:
+        pinned.check(run, run.facts('full'), 'backend_alloc_polars')
+    run.config = keep
+
+
 def pins(run, F, *sets):
     """confirmed decision tables of primitives / delegations (rules/pinned)"""
     import pinned
